@@ -24,7 +24,8 @@ ASSUMPTIONS = [
 
 
 APIS = ("function", "method", "method_on_region_with_start", "function_on_region_with_start", "raw_file", "raw_file_lazy",
-        "wav_file", "wav_file_lazy", "used_buffer_source", "used_reader")
+        "wav_file", "wav_file_lazy", "used_buffer_source", "used_reader", "stdin_pipe", "recorder_second_pass",
+        "region_with_conflicting_audio_kwargs", "split_and_plot")
 
 
 def run_case(ctx, case, api=None):
@@ -63,6 +64,52 @@ def run_case(ctx, case, api=None):
                     regions = list(auditok.split(path, large_file=api.endswith("lazy"), **kw))
             finally:
                 os.unlink(path)
+        elif api == "stdin_pipe":
+            import random as _random
+            import sys as _sys
+
+            from ..stdin import PipeStdin
+
+            old_stdin = _sys.stdin
+            ps = PipeStdin(data, _random.Random(case["pcm_seed"]), max_chunk=max(1, min(997, case["block"] * case["width"] * case["channels"] - 1)))
+            _sys.stdin = ps
+            try:
+                regions = list(auditok.split("-", **kw, **AC.audio_kwargs(case)))
+            finally:
+                _sys.stdin = old_stdin
+                ps.close()
+        elif api == "recorder_second_pass":
+            # history: Recorder -> split -> rewind -> split again; the second pass reports the same audio parameters and times
+            from auditok import Recorder
+
+            if case["w"] != case["block"] / case["rate"]:
+                api = "function"
+                regions = list(auditok.split(data, **kw, **AC.audio_kwargs(case)))
+            else:
+                kw2 = {k: v for k, v in kw.items() if k not in ("analysis_window", "aw")}
+                rec = Recorder(data, block_dur=case["w"], **AC.audio_kwargs(case))
+                list(auditok.split(rec, **kw2))
+                rec.rewind()
+                regions = list(auditok.split(rec, **kw2))
+        elif api == "region_with_conflicting_audio_kwargs":
+            # a helper that passes raw-audio parameters for every input kind: a region's own parameters are the input's
+            reg = AudioRegion(data, case["rate"], case["width"], case["channels"])
+            bogus = dict(sampling_rate=case["rate"] * 2 + 1, sample_width={1: 2, 2: 4, 4: 1}[case["width"]], channels=case["channels"] + 1)
+            if case["pcm_seed"] & 64:
+                bogus = dict(sr=bogus["sampling_rate"], sw=bogus["sample_width"], ch=bogus["channels"])
+            regions = list(auditok.split(reg, **kw, **bogus)) if case["pcm_seed"] & 128 else list(reg.split(**kw, **bogus))
+        elif api == "split_and_plot":
+            # the plotting entry point returns the same regions (figure rendered off-screen)
+            reg = AudioRegion(data, case["rate"], case["width"], case["channels"])
+            if len(data) == 0 or len(case["v"]) > 25 or (case["pcm_seed"] >> 9) % 4:
+                api = "method"  # plotting is slow: one in four of these slots really plots
+                regions = list(reg.split(**kw))
+            else:
+                import matplotlib.pyplot as plt
+
+                fn = reg.splitp if case["pcm_seed"] & 64 else reg.split_and_plot
+                regions = list(fn(show=False, **kw))
+                plt.close("all")
         elif api in ("used_buffer_source", "used_reader"):
             # a multi-step history: the source was opened, partly read and closed before being handed to split();
             # times still count from the beginning of the input
@@ -160,6 +207,6 @@ def replay(ctx, case):
 def inconclusive(merged, tier):
     c = merged["counters"]
     return [f"monitor never observed {k}" for k in
-            ("regions_observed", "regions_expected", "api_function", "api_method", "api_method_on_region_with_start", "api_function_on_region_with_start", "api_raw_file_lazy", "api_wav_file_lazy", "api_used_buffer_source", "api_used_reader", "cases_threshold_zero", "nested_splits", "width_1", "width_2", "width_4",
+            ("regions_observed", "regions_expected", "api_function", "api_method", "api_method_on_region_with_start", "api_function_on_region_with_start", "api_raw_file_lazy", "api_wav_file_lazy", "api_used_buffer_source", "api_used_reader", "api_stdin_pipe", "api_recorder_second_pass", "api_region_with_conflicting_audio_kwargs", "api_split_and_plot", "cases_threshold_zero", "nested_splits", "width_1", "width_2", "width_4",
              "channels_1", "channels_2", "channels_3", "cases_with_partial_last_window", "regions_ending_in_partial_window",
              "cases_nonintegral_window") if c.get(k, 0) == 0]
